@@ -73,8 +73,27 @@ MODEL_RENAMES = [
 ]
 
 
+def strip_test_modules(src):
+    """remove `#[cfg(test)] mod tests { ... }` blocks (brace matched; the test modules contain no
+    unbalanced braces inside string literals in this repository)"""
+    while True:
+        m = re.search(r"\n#\[cfg\(test\)\]\n(pub )?mod tests? \{", src)
+        if not m:
+            return src
+        i = m.end()
+        depth = 1
+        while i < len(src) and depth:
+            c = src[i]
+            if c == "{":
+                depth += 1
+            elif c == "}":
+                depth -= 1
+            i += 1
+        src = src[:m.start()] + "\n" + src[i:]
+
+
 def deasync(src):
-    src = re.sub(r"\n#\[cfg\(test\)\]\n(pub )?mod tests? \{.*\Z", "\n", src, flags=re.S)
+    src = strip_test_modules(src)
     src = re.sub(r"\basync\s+fn\b", "fn", src)
     src = re.sub(r"\basync\s+move\s*\{", "{", src)
     src = re.sub(r"\basync\s*\{", "{", src)
